@@ -54,3 +54,35 @@ def run(name, kind, a, b, maxt=5, maxn=4, vals=(1, 2, 3), dev=(), emit=False, wo
     if not os.environ.get("VERIF_KEEP"):
         shutil.rmtree(wd, ignore_errors=True)
     return res, behs
+
+
+FCFG = """SPECIFICATION Spec
+CONSTANTS
+ Formulas <- FormulasDef
+ MaxT = %d
+ MaxN = %d
+ Vals <- ValsDef
+ Dev = %s
+ SS = 1
+INVARIANT NoErr
+INVARIANT Mono
+INVARIANT Agree
+CHECK_DEADLOCK FALSE
+"""
+
+
+def run_formulas(name, formulas, maxt=3, maxn=3, vals=(-2, 3), dev=(), workers=8, timeout=7200, expect_violation=False):
+    """exhaustive TLC run of DenseOnFMC: formulas x signals x all per-variable schedules"""
+    wd = tlc.workdir(name)
+    mod = "MC_" + name
+    with open(os.path.join(wd, mod + ".tla"), "w") as f:
+        f.write("---- MODULE %s ----\nEXTENDS DenseOnFMC\nFormulasDef == %s\nValsDef == %s\n====\n" % (mod, tlc.tla_set(formulas), tlc.tla(set(vals))))
+    with open(os.path.join(wd, mod + ".cfg"), "w") as f:
+        f.write(FCFG % (maxt, maxn, tlc.tla(set(dev))))
+    res = tlc.run(wd, mod, workers=workers, timeout=timeout, deadlock=True)
+    tlc.ok_or_machinery(res, name)
+    if expect_violation and not res["violated"]:
+        raise core.Machinery("%s: deviation-on configuration produced no counter-example (vacuous invariants?)" % name)
+    if not os.environ.get("VERIF_KEEP"):
+        shutil.rmtree(wd, ignore_errors=True)
+    return res
